@@ -16,30 +16,27 @@
    Contents are the logged hashes.  Binding: the hand-in is bound as a copy (what the component keeps is not visible;
    if it aliased the writer's object, a later Get shows it: Unchanged / ElemsIntact); a Get is bound as a fresh object
    when `shares` is empty and otherwise as the very object of a sharing holder -- then NoSharing fails.
-   Tolerated = hand-off points <<comp, point>> of a documented known finding: for those sharing is tolerated (the
-   deviation cfg); {} in the strict cfg.
+   There is no deviation configuration: the one defect found (DutyDB Await* handing out the stored pointer) is repaired
+   by pending_fixes/C18-dutydb-await-clone.diff, so it is reported again if it ever returns.
    Hang / Race events (a blocked query; a data race reported by the race detector in the concurrent tier) match no
    step. *)
 EXTENDS Isolation, TraceCommon
-CONSTANTS Tolerated
 tvars == <<vars, tr, l>>
 TraceInit == TrInit /\ InitWith(Traces[tr][1].comp, Traces[tr][1].typ)
 TReset == IsEvent("Reset") /\ l = 1 /\ UNCHANGED vars
 TNew == IsEvent("New") /\ New(Ev.h, Ev.hash)
 TPut == IsEvent("Put") /\ HandIn(Ev.p, Ev.h, "copy", SeqToSet(Ev.elems)) /\ heap[id[Ev.h]] = Ev.hash
 TPutRet == IsEvent("PutRet") /\ UNCHANGED vars
-Tol(p) == <<comp, p>> \in Tolerated
 TGet == /\ IsEvent("Get")
-        /\ LET sh == SeqToSet(Ev.shares) \cap DOMAIN id IN
-           IF sh = {} \/ Tol(Ev.p)
+        /\ SeqToSet(Ev.shares) \subseteq DOMAIN id
+        /\ LET sh == SeqToSet(Ev.shares) IN
+           IF sh = {}
              THEN HandOut(Ev.p, Ev.key, Ev.to, "fresh", Ev.hash, SeqToSet(Ev.elems))
              ELSE HandOut(Ev.p, Ev.key, Ev.to, CHOOSE s \in sh : TRUE, Ev.hash, SeqToSet(Ev.elems))
 TMutate == IsEvent("Mutate") /\ Mutate(Ev.h, Ev.hash)
 TRead == IsEvent("Read") /\ Read(Ev.h, Ev.hash)
 TraceNext == TReset \/ TNew \/ TPut \/ TPutRet \/ TGet \/ TMutate \/ TRead
 TraceSpec == TraceInit /\ [][TraceNext]_tvars
-\* a holder that received its value through a tolerated point (or shares memory with one that did) is outside the claim
-Tainted == {h \in DOMAIN id : \E g \in DOMAIN id : id[g] = id[h] /\ g # h}
 Mark == /\ CheckInv("NoSharing", NoSharing)
         /\ CheckInv("Unchanged", Unchanged)
         /\ CheckInv("ElemsIntact", ElemsIntact)
